@@ -118,6 +118,9 @@ SPECS["C06"] = {
         {"name": "H5-catchable-in-try", "pkg": "interpreter", "files": _C06, "fn": "VerifC06BinaryOperators",
          "what": "same operator space inside try/except: the statement completes without an escaping error", "reach": ["before-eval", "after-eval"],
          "quick": {"params": {"TRY": 1}, "unwind": 30, "wall_s": 600}, "thorough": {"params": {"TRY": 1}, "unwind": 30, "wall_s": 1500}},
+        {"name": "H7-statements", "pkg": "interpreter", "files": _C06, "fn": "VerifC06Statements",
+         "what": "28 statement templates x 13 value kinds in the position that expects a particular kind", "reach": ["before-eval", "after-eval"],
+         "quick": {"unwind": 30, "wall_s": 600, "max_steps": 2000000}, "thorough": {"unwind": 30, "wall_s": 1500, "max_steps": 2000000}},
         {"name": "H1-prefix-operators", "pkg": "interpreter", "files": _C06, "fn": "VerifC06PrefixOperators",
          "what": "-x, +x, not x for 9 operand kinds", "reach": ["before-eval", "after-eval"],
          "quick": {"unwind": 30, "wall_s": 300}, "thorough": {"unwind": 30, "wall_s": 600}},
@@ -285,13 +288,13 @@ SPECS["C07"] = {
          "what": "all sequences of %d tokens over the first %d token texts" % (k, t), "reach": ["parsed", "tree"],
          "quick": {"params": {"K": k, "T": t, "EVAL": 1}, "unwind": 40, "wall_s": 600} if q else None,
          "thorough": {"params": {"K": k, "T": t, "EVAL": 1}, "unwind": 40, "wall_s": 3000}}
-        for (k, t, q) in ((1, 33, True), (2, 33, True), (3, 12, True), (3, 33, False), (4, 12, False))
+        for (k, t, q) in ((1, 38, True), (2, 38, True), (3, 12, True), (3, 38, False), (4, 12, False))
     ] + [
         {"name": "H3-mutations-%d" % m, "pkg": "interpreter", "files": _C07, "fn": "VerifC07Mutations",
-         "what": "8 base programs, %d symbolic mutation(s) (replace by one of %d texts / delete / duplicate)" % (m, t), "reach": ["parsed", "tree"],
+         "what": "12 base programs, %d symbolic mutation(s) (replace by one of %d texts / delete / duplicate)" % (m, t), "reach": ["parsed", "tree"],
          "quick": {"params": {"MUT": m, "T": t}, "unwind": 40, "wall_s": 600} if m == 1 else None,
          "thorough": {"params": {"MUT": m, "T": t}, "unwind": 40, "wall_s": 3000}}
-        for (m, t) in ((1, 33), (2, 12))
+        for (m, t) in ((1, 38), (2, 12))
     ] + [
         {"name": "H2-lexer-bytes-%d" % n, "pkg": "parser", "files": ["parser/c07.go"], "fn": "VerifC07LexTotal",
          "what": "lexer on all ASCII inputs of %d bytes" % n, "reach": ["lexed"],
@@ -390,6 +393,13 @@ SPECS["C15"] = {
          "what": "breakpoint inside a function body, one continue", "reach": ["quiescent", "finished"],
          "quick": {"params": {"PROG": 1, "LINE": 2, "P": 2, "CONTS": 1}, "unwind": 60, "wall_s": 900},
          "thorough": {"params": {"PROG": 1, "LINE": 2, "P": 3, "CONTS": 1}, "unwind": 60, "wall_s": 3000}},
+    ] + [
+        {"name": "H2-resume-after-%s" % cn, "pkg": "interpreter", "files": _C15, "fn": "VerifC15Resume",
+         "what": "breakpoint on line 1, first command %s (thread suspends again on the next line), then resume" % cn, "reach": ["quiescent", "finished"],
+         "quick": {"params": {"PROG": 0, "LINE": 1, "P": 1 if cn == "stepin" else 2, "CONTS": 2, "FIRSTCMD": ci}, "unwind": 60, "wall_s": 900},
+         "thorough": {"params": {"PROG": 1, "LINE": 5, "P": 2, "CONTS": 3, "FIRSTCMD": ci}, "unwind": 60, "wall_s": 3000}}
+        for (cn, ci) in (("stepin", 1), ("stepover", 2))
+    ] + [
         {"name": "H1-transparent", "pkg": "interpreter", "files": _C15, "fn": "VerifC15Transparent",
          "what": "4 programs x breakpoint subsets x command sequences", "reach": ["finished"],
          "quick": {"params": {"CMDS": 4}, "unwind": 60, "wall_s": 900},
@@ -410,8 +420,11 @@ SPECS["C08"] = {
         {"name": "H1-operators", "pkg": "parser", "files": ["parser/c08.go"], "fn": "VerifC08Operators",
          "what": "operator nesting shapes", "reach": ["parsed", "reparsed"],
          "quick": {"unwind": 60, "wall_s": 900}, "thorough": {"unwind": 60, "wall_s": 1800}},
+        {"name": "H3-parameters", "pkg": "parser", "files": ["parser/c08.go"], "fn": "VerifC08Parameters",
+         "what": "parameter defaults / call arguments / container elements with a symbolic operator or a 2-byte symbolic string over {a,%,d,space,backslash}", "reach": ["parsed", "reparsed"],
+         "quick": {"unwind": 60, "wall_s": 900}, "thorough": {"unwind": 60, "wall_s": 1800}},
         {"name": "H3-statements", "pkg": "parser", "files": ["parser/c08.go"], "fn": "VerifC08Statements",
-         "what": "31 statement templates x 4 nestings", "reach": ["parsed", "reparsed"],
+         "what": "37 statement templates x 4 nestings", "reach": ["parsed", "reparsed"],
          "quick": {"unwind": 60, "wall_s": 900}, "thorough": {"unwind": 60, "wall_s": 1800}},
     ] + [
         {"name": "H2-strings-%d" % n, "pkg": "parser", "files": ["parser/c08.go"], "fn": "VerifC08Strings",
